@@ -4,6 +4,7 @@
 package bridge
 
 import (
+	"encoding/json"
 	"fmt"
 	"math"
 	"math/big"
@@ -73,6 +74,8 @@ func goInt(v rc.Val) any {
 		return *big.NewInt(i)
 	case rc.SpBigIntPtr:
 		return big.NewInt(i)
+	case rc.SpNamedInt:
+		return NamedInt(i)
 	case rc.SpTime:
 		if i > -(1<<40) && i < 1<<40 {
 			return time.Unix(i, 0).UTC()
@@ -104,6 +107,12 @@ func ToGo(v rc.Val) any {
 		}
 		return append([]byte{}, v.B...)
 	case rc.KText:
+		switch v.Sp {
+		case rc.SpJSONNumber:
+			return json.Number(string(v.B))
+		case rc.SpNamedString:
+			return NamedString(string(v.B))
+		}
 		return string(v.B)
 	case rc.KArray:
 		out := make([]any, len(v.A))
@@ -242,3 +251,7 @@ func Headers(prot, unprot rc.Val) cose.Headers {
 func AlgOf(a int64) cose.Algorithm { return cose.Algorithm(a) }
 
 var _ = refcose.AlgES256
+
+// NamedInt / NamedString: caller-defined types over int64 / string (what a typed configuration layer hands over).
+type NamedInt int64
+type NamedString string
